@@ -117,7 +117,8 @@ def alternatives (c : Cfg) (s : SendRec) (observed : String) (big : Int) : List 
     let it : Item := { id := s.tag, size := sz, need := min s.need sz, halves := s.halves, serFail := sf, deFail := s.defail }
     let aborts : List Abort :=
       if observed == "cancelled" then
-        ([0, c.rMaxData + 1, c.rMaxItem + 1].filter (· < sz)).map Abort.inData ++ (if s.halves > 0 then [.beforePorts] else [])
+        -- a cancelled chunk-streamed send may have put every byte on the port (only `finish` is missing)
+        (([0, c.rMaxData + 1, c.rMaxItem + 1].filter (· < sz)) ++ [sz]).map Abort.inData ++ (if s.halves > 0 then [.beforePorts] else [])
       else [.none]
     aborts.flatMap fun ab => derrs.flatMap fun d => n0s.flatMap fun n0 =>
       let x := sendItem c big it ab d n0
